@@ -207,7 +207,7 @@ def rw_global_vars(rng, spec, root, ref):
     if not root.get('global_vars'):
         return None
     spec, root = copy.deepcopy(spec), copy.deepcopy(root)
-    root['global_vars'] = {'kind': rng.choice(['dict', 'object']), 'values': {'A': rng.choice(['other', '/mnt/x y', 'ü']), 'DIR': '/elsewhere', 'B': 'q' * 5}}
+    root['global_vars'] = {'kind': rng.choice(['dict', 'object']), 'values': {'A': rng.choice(['other', '/mnt/x y', 'ü']), 'DIR': '/elsewhere', 'B': 'q' * 5, 'CFGROOT': '<LABROOT>'}}
     return spec, root, ident(ref), 'other values behind the placeholders'
 
 
